@@ -39,6 +39,9 @@ CHECKS = {
  "C09": ("exploration", "A", "deterministic simulation: real parallel walk under main-pool sizes 1/2/16 vs executable reference walk",
          "Seeded trees (nesting, hidden entries, ignore files, file/dir symlinks incl. dangling and cyclic, metacharacter and non-ASCII directory names) x selection options x overlapping roots; the selected set must equal the reference walk and be identical for all pool sizes.",
          "glob forms literal/*/**/?; ignore files only in simple forms and never together with --follow-links; excluded directories excluded with their subtree; --one-fs not exercised", "4/C09"),
+ "C10": ("exploration", "A", "deterministic simulation: report as a faulted stream between two real processes (every cut offset, chunked delivery, writer ENOSPC/EIO/kill), paths observed at the seam",
+         "Round trip observed through the raw paths the reader stats and through text-vs-JSON equivalence of effects on hostile-name worlds; exhaustive cut offsets of scenario text reports (JSON sampled); chunked stdin; failing/killed report writer.",
+         "codec coverage limited to the generator's name alphabets (no bounded-exhaustive string enumeration: not this technique); serial reader", "4/C10"),
 }
 NOT_APPLICABLE = {
  "C16": "pure function of (glob pattern, string): no schedule, clock, fault, stream or history for a simulator to control; needs bounded-exhaustive input enumeration against a reference matcher, which is a different technique (DESIGN section 5)",
